@@ -38,8 +38,14 @@ pub fn run(op: &str, args: &[&str]) -> Option<String> {
             // (a permutation when n is coprime with the multiplier; duplicates only make the collection smaller, and then
             //  `len` below tells: the Python side expects exactly n elements and picks n accordingly)
             fn fin<T: borsh::BorshSerialize + borsh::BorshDeserialize + PartialEq>(x: &T, elem: usize) -> Option<String> {
-                let b = borsh::to_vec(x).ok()?;
-                let back: T = borsh::from_slice(&b).ok()?;
+                let b = match borsh::to_vec(x) {
+                    Ok(b) => b,
+                    Err(e) => return Some(format!("enc-{}", crate::errs::err_s(&e))),
+                };
+                let back: T = match borsh::from_slice(&b) {
+                    Ok(v) => v,
+                    Err(e) => return Some(format!("dec-{} prefix={}", crate::errs::err_s(&e), b.iter().take(4).map(|x| format!("{:02x}", x)).collect::<String>())),
+                };
                 let body = &b[4.min(b.len())..];
                 // the first u32 of every element, read back from the bytes, must ascend for the sorted kinds
                 let firsts: Vec<u32> = body.chunks(elem).filter(|c| c.len() == elem).map(|c| u32::from_le_bytes([c[0], c[1], c[2], c[3]])).collect();
